@@ -9,7 +9,8 @@ SPEC = dict(
     property='C08',
     groups=[
         dict(name='mgr', harness='h_mgr.cpp', tus=MGR_TUS, models=MODELS + ['c08_mgr.c'], shadow_task=True,
-             instances=[I('iqh_check'), I('iqh_reply'), I('iqh_handle_result'), I('iqh_handle_error'), I('iqh_handle_erroriq'), I('mgr_version'), I('mgr_time'), I('mgr_disco'), I('mgr_vcard'), I('mgr_roster')]),
+             instances=[I('iqh_check'), I('iqh_check_noiq'), I('iqh_reply'), I('iqh_handle_result'), I('iqh_handle_error'), I('iqh_handle_erroriq'), I('iqh_handle_resp')] +
+                       [I('mgr_%s_%s' % (m, k)) for m in ('version', 'time', 'disco', 'vcard', 'roster') for k in ('req', 'resp')]),
     ],
     bounds=[], assumptions=[], outside=[],
 )
